@@ -57,7 +57,7 @@ Definition b_done (s : bst) (t : tid) : bool :=
 Definition f11a_progs : tid -> list op := progs_fun [[OSend MAX64; OSend MAX64]; [ORecv MAX64]].
 Definition f11a_sched : list label := thr [1;1;1;1;1;1;1; 1;1;1;1;1; 2;2;2; 1;1]%nat.
 Definition f11a_witness_stmt : Prop :=
-  exists s, brun 1 (b_init f11a_progs 1000) f11a_sched = Some s /\
+  exists s, brun false 1 (b_init f11a_progs 1000) f11a_sched = Some s /\
     b_q s = [] /\ b_closed s = false /\ b_done s 2%nat = true /\
     b_asleep s 1%nat = true /\ sm_q (b_ssem s) = [1%nat] /\ sm_cnt (b_ssem s) = 0 /\
     b_dl s 1%nat = MAX64 /\ b_popped s = [(1, 0)%nat].
@@ -69,7 +69,7 @@ Proof. unfold f11a_witness_stmt. eexists. split; [vm_compute; reflexivity|]. vm_
 Definition f11b_progs : tid -> list op := progs_fun [[ORecv MAX64]; [OSend MAX64]].
 Definition f11b_sched : list label := thr [1;1;1;1; 2;2;2;2;2;2;2; 1;1]%nat.
 Definition f11b_witness_stmt : Prop :=
-  exists s, brun 1 (b_init f11b_progs 1000) f11b_sched = Some s /\
+  exists s, brun false 1 (b_init f11b_progs 1000) f11b_sched = Some s /\
     b_q s = [((2, 0)%nat, true)] /\ b_closed s = false /\ b_done s 2%nat = true /\
     b_sent_true s (2, 0)%nat = true /\
     b_asleep s 1%nat = true /\ sm_q (b_rsem s) = [1%nat] /\ sm_cnt (b_rsem s) = 0 /\ b_dl s 1%nat = MAX64.
@@ -81,7 +81,7 @@ Proof. unfold f11b_witness_stmt. eexists. split; [vm_compute; reflexivity|]. vm_
 Definition f11c_progs : tid -> list op := progs_fun [[ORecv MAX64]; [OClose]].
 Definition f11c_sched : list label := thr [1;1;1;1; 2;2;2;2;2;2; 1;1]%nat.
 Definition f11c_witness_stmt : Prop :=
-  exists s, brun 1 (b_init f11c_progs 1000) f11c_sched = Some s /\
+  exists s, brun false 1 (b_init f11c_progs 1000) f11c_sched = Some s /\
     b_closed s = true /\ b_done s 2%nat = true /\
     b_asleep s 1%nat = true /\ sm_q (b_rsem s) = [1%nat] /\ sm_cnt (b_rsem s) = 0 /\ b_dl s 1%nat = MAX64.
 Lemma f11c_witness : f11c_witness_stmt.
@@ -116,11 +116,11 @@ Qed.
    an infinite deadline, count 0, nobody inside a call, while (a) a slot is free, (b) an item is
    buffered, (c) the channel is closed *)
 Definition chan_release_buffered_refuted_stmt : Prop :=
-  (exists ls s, brun 1 (b_init f11a_progs 1000) ls = Some s /\ b_asleep s 1%nat = true /\ b_dl s 1%nat = MAX64 /\
+  (exists ls s, brun false 1 (b_init f11a_progs 1000) ls = Some s /\ b_asleep s 1%nat = true /\ b_dl s 1%nat = MAX64 /\
                 sm_cnt (b_ssem s) = 0 /\ b_q s = [] /\ b_closed s = false /\ b_done s 2%nat = true) /\
-  (exists ls s, brun 1 (b_init f11b_progs 1000) ls = Some s /\ b_asleep s 1%nat = true /\ b_dl s 1%nat = MAX64 /\
+  (exists ls s, brun false 1 (b_init f11b_progs 1000) ls = Some s /\ b_asleep s 1%nat = true /\ b_dl s 1%nat = MAX64 /\
                 sm_cnt (b_rsem s) = 0 /\ b_q s = [((2, 0)%nat, true)] /\ b_closed s = false /\ b_done s 2%nat = true) /\
-  (exists ls s, brun 1 (b_init f11c_progs 1000) ls = Some s /\ b_asleep s 1%nat = true /\ b_dl s 1%nat = MAX64 /\
+  (exists ls s, brun false 1 (b_init f11c_progs 1000) ls = Some s /\ b_asleep s 1%nat = true /\ b_dl s 1%nat = MAX64 /\
                 sm_cnt (b_rsem s) = 0 /\ b_closed s = true /\ b_done s 2%nat = true).
 Lemma chan_release_buffered_refuted : chan_release_buffered_refuted_stmt.
 Proof.
@@ -128,4 +128,17 @@ Proof.
   - exists f11a_sched. eexists. split; [vm_compute; reflexivity|]. vm_compute. repeat split; reflexivity.
   - exists f11b_sched. eexists. split; [vm_compute; reflexivity|]. vm_compute. repeat split; reflexivity.
   - exists f11c_sched. eexists. split; [vm_compute; reflexivity|]. vm_compute. repeat split; reflexivity.
+Qed.
+
+(* the three F11 schedules on the REPAIRED buffered code (fx = true; the re-check adds steps): nobody is left asleep *)
+Definition f11_fixed_behaviour_stmt : Prop :=
+  (exists s, brun true 1 (b_init f11a_progs 1000) (thr [1;1;1;1;1;1;1; 1;1;1;1;1; 2;2;2; 1;1;1;1;1; 1;1;1;1;1;1;1]%nat) = Some s /\
+             b_done s 1%nat = true /\ b_done s 2%nat = true /\ b_sent_true s (1, 1)%nat = true) /\
+  (exists s, brun true 1 (b_init f11b_progs 1000) (thr [1;1;1;1; 2;2;2;2;2;2;2; 1;1;1;1;1; 1;1;1]%nat) = Some s /\
+             b_done s 1%nat = true /\ b_popped s = [(2, 0)%nat]) /\
+  (exists s, brun true 1 (b_init f11c_progs 1000) (thr [1;1;1;1; 2;2;2;2;2;2; 1;1;1; 1;1]%nat) = Some s /\
+             b_done s 1%nat = true /\ b_closed s = true).
+Lemma f11_fixed_behaviour : f11_fixed_behaviour_stmt.
+Proof.
+  split; [|split]; eexists; (split; [vm_compute; reflexivity|]); vm_compute; repeat split; reflexivity.
 Qed.
